@@ -4,6 +4,7 @@ import json
 
 import core
 import trees
+import scale
 import modelrun
 from ref import oracle
 from props import c01
@@ -19,7 +20,14 @@ RULE = ("model tie: extracted Coq model of Hasher with align=true and of the ent
         "pieces = SHA-1 hashing of the zero-padded stream, listed lengths account for exactly the recorded pieces, single file "
         "hashed alone; routes in turn: library with progress 0|1|2 (fresh / assemble() again on the same object, tree unchanged / "
         "assemble() again after the payload changed, judged against the tree on disk at that moment) and the command line with "
-        "--prog 0|1|2 and --quiet.  Non-trivial = distinct and hits a boundary class.")
+        "--prog 0|1|2 and --quiet.  Payloads AT SCALE (harness/scale.py; end to end only, never sent to the model): piece lengths "
+        "2 .. 16 MiB with files of 1 .. 26 MiB aimed at read windows of 1 / 4 / 8 MiB (a short file after a piece that had data in "
+        "its later windows, file sizes that are multiples of 1 MiB but not of the piece length, more than 1 / 4 / 8 MiB of padding, "
+        "tails one byte either side of a piece) and one 65 MiB file with 32 MiB pieces; every such tree goes through the library "
+        "(fresh, progress 0|1|2 in turn) AND through `create --align` (--prog 0|1|2 / --quiet in turn, --piece-length spelled as "
+        "the exponent 21..25 or in bytes in turn), every third also through assemble() again on the unchanged tree, every third "
+        "through assemble() again after the payload changed; all templates in the quick tier, 40 trees (templates, then random "
+        "sizes k MiB + r) in the thorough tier; same judge.  Non-trivial = distinct and hits a boundary class.")
 TRUSTED_BASE = c01.TRUSTED_BASE
 ASSUMPTIONS = c01.ASSUMPTIONS
 
@@ -101,7 +109,9 @@ def run_route(inp, root, out, before, tree):
     from torrentfile.cli import execute
     pl = inp["piece_length"]
     if inp.get("cli"):
-        trees.quiet(execute, c01.cli_argv(inp.get("progress", "0"), ["--align", "--piece-length", str(pl), "-o", out, root]))
+        # the piece length is spelled in bytes, or -- where recorded -- as the exponent
+        spelled = str(inp.get("piece_length_argument", pl))
+        trees.quiet(execute, c01.cli_argv(inp.get("progress", "0"), ["--align", "--piece-length", spelled, "-o", out, root]))
         return oracle.read(out)
     re = inp.get("reassemble")
     return trees.create("v1-align", root, out, pl, progress=inp.get("progress", 0),
@@ -109,6 +119,7 @@ def run_route(inp, root, out, before, tree):
 
 
 def e2e(ctx):
+    import shutil
     n = 40 if ctx.tier == "quick" else 600
     core.use_repo_in_process()
     with core.Scratch("vc15e_") as tmp:
@@ -132,19 +143,59 @@ def e2e(ctx):
                    "reassemble": reassemble}
             if how:
                 inp.update(tree_at_construction=trees.tree_summary(before), change=how)
-            try:
-                raw = run_route(inp, root, out, before, tree)
-            except (Exception, SystemExit) as e:  # noqa
-                ctx.fail("create-raised", inp, "a metafile", f"{type(e).__name__}: {e}")
-                continue
-            problems, order = judge_metafile(raw, root, tree, pl, single)
-            if problems:
-                ctx.fail("aligned-metafile", inp, "C15", problems[:6])
-            cl |= trees.classify_v1(tree, pl, order if order and set(order) == set(tree) else None)
-            ctx.case(key=("e2e", i, tuple(sorted(trees.tree_summary(tree).items())), pl),
-                     classes=["align " + c for c in sorted(cl)] + [f"route: {'cli' if via_cli else 'library'} progress {progress}"]
-                     + ([f"route: assemble() again, tree {reassemble}"] if reassemble else []), nontrivial=bool(cl),
-                     sample={"tree": trees.tree_summary(tree), "pl": pl} if i == 2 else None)
+            one_route(ctx, i, inp, root, out, before, tree, cl, "")
+        # payloads at scale (harness/scale.py): piece lengths 2 .. 32 MiB, file sizes aimed at 1 / 4 / 8 MiB read windows.  Every
+        # tree goes through the library AND the command line (the aimed shape is judged as it is on both), some of them also
+        # through assemble() again -- unchanged, or after the payload changed (that one last: it rewrites the tree)
+        for j in range(len(scale.TEMPLATES) + 1 if ctx.tier == "quick" else 40):
+            pl, tree, cl = scale.gen(ctx.rng, j, thorough=True)
+            single = list(tree) == [()]
+            root = os.path.join(tmp, f"s{j}", "payload.bin" if single else "payload")
+            trees.write_tree(root, tree)
+            base = {"piece_length": pl, "scale": True}
+            routes = [dict(base, cli=False, progress=(j + 1) % 3, reassemble=None),
+                      dict(base, cli=True, progress=c01.CLI_PROGRESS[(j + 2) % 4], reassemble=None,
+                           piece_length_argument=str(pl.bit_length() - 1) if j % 2 == 0 else str(pl))]
+            if j % 3 == 1:
+                routes.append(dict(base, cli=False, progress=j % 3, reassemble="unchanged"))
+            if j % 3 == 2:
+                routes.append(dict(base, cli=False, progress=j % 3, reassemble="changed"))
+            for r, inp in enumerate(routes):
+                before = tree
+                if inp["reassemble"] == "changed":
+                    tree, how = trees.mutate_tree(ctx.rng, before, pl)
+                    inp.update(tree_at_construction=trees.tree_summary(before), change=how)
+                    cl = {c for c in cl if c.startswith("scale: piece length")}      # the aimed shape is gone
+                inp["tree"] = trees.tree_summary(tree)
+                one_route(ctx, SCALE0 + 10 * j + r, inp, root, os.path.join(tmp, f"s{j}", f"o{r}.torrent"), before, tree, set(cl),
+                          "scale: ")
+            shutil.rmtree(os.path.join(tmp, f"s{j}"), ignore_errors=True)
+
+
+SCALE0 = c01.SCALE0     # end-to-end case numbers from here on are the cases at scale (10 * tree number + route number)
+
+
+def one_route(ctx, i, inp, root, out, before, tree, cl, prefix):
+    """one end-to-end case: the payload at root (written from `before`) through the route of inp, judged against `tree`"""
+    pl, single = inp["piece_length"], list(tree) == [()]
+    via_cli, progress, reassemble = inp["cli"], inp["progress"], inp["reassemble"]
+    try:
+        raw = run_route(inp, root, out, before, tree)
+    except (Exception, SystemExit) as e:  # noqa
+        ctx.fail("create-raised", inp, "a metafile", f"{type(e).__name__}: {e}")
+        return
+    problems, order = judge_metafile(raw, root, tree, pl, single)
+    if problems:
+        ctx.fail("aligned-metafile", inp, "C15", problems[:6])
+    cl = cl | trees.classify_v1(tree, pl, order if order and set(order) == set(tree) else None)
+    # the classes of a tree at scale are counted apart from those of the small trees
+    ctx.case(key=("e2e", i, tuple(sorted(trees.tree_summary(tree).items())), pl),
+             classes=[c if c.startswith("scale: ") else prefix + "align " + c for c in sorted(cl)]
+             + [f"{prefix}route: {'cli' if via_cli else 'library'} progress {progress}"]
+             + ([f"{prefix}route: assemble() again, tree {reassemble}"] if reassemble else [])
+             + ([prefix + "--piece-length given as " + ("the exponent" if int(inp["piece_length_argument"]) < 64 else "bytes")]
+                if "piece_length_argument" in inp else []), nontrivial=bool(cl),
+             sample={"tree": trees.tree_summary(tree), "pl": pl} if i == 2 else None)
 
 
 def entries_unit(ctx, model_ok):
